@@ -296,6 +296,20 @@ def stepLine (d : DSt) (line : String) : DSt × String :=
         | some c, some i => doOp d (.steal c i)
         | _, _ => (d, "dead"))
     | none => (d, "bad-op")
+  | ["move", np, o] =>
+    -- talloc_move(np, &var) with var = the object: result pointer and var afterwards are printed
+    match o.toNat? with
+    | some n =>
+      (match optSlot d np, slotId d n with
+        | some c, some i =>
+          let (d', out) := doOp d (.steal c i)
+          if d.stat then (d', out.replace "steal:" "move:")
+          else
+            let (_, res, var) := moveOp d.cfg d.s c i
+            let w := fun (x : Option Id) => if x.isSome then "ptr" else "null"
+            (d', s!"mv={w res},{w var} " ++ out)
+        | _, _ => (d, "dead"))
+    | none => (d, "bad-op")
   | ["reparent", op, np, o] =>
     match o.toNat? with
     | some n =>
